@@ -187,7 +187,7 @@ func (rc *retentionTask[T, O]) run(_ context.Context, now time.Time, l *logger.L
 	rc.database.incTotalRetentionStarted(1)
 	defer rc.database.incTotalRetentionFinished(1)
 	// Read the TTL at run time: it can be changed on a live database through UpdateOptions.
-	deadline := now.Add(-rc.database.segmentController.getOptions().TTL.estimatedDuration())
+	deadline := now.Add(-rc.database.segmentController.getTTL().estimatedDuration())
 	start := time.Now()
 	hasData, err := rc.database.segmentController.remove(deadline)
 	if hasData {
